@@ -87,6 +87,12 @@ R8  a formula is a function of its arguments: a method of the model classes that
     compared with the stored key, that determines by content every argument the computed answer reads; a key built
     from id(...) of an argument, or one that omits an argument that is read, is a violation.  An embedded
     last-result memo that leaves v_tas out of its key is the positive control.
+    The same for a value that is not returned but gone on with: `self.a = V` under a test that a key differs from the one
+    an earlier call stored (`key != self.k`, `not key == self.k`, `key not in self.k`, also as one alternative of an `or`)
+    in a method that reads `self.a` - when the key is unchanged the method works with the V of the earlier call.  Every
+    parameter V is computed from (through locals) must enter the key by content (itself, or all of it through asarray /
+    tobytes / tuple / tolist ...): a parameter the key says nothing about, or an id(...) key, is a violation (R2 then leaves
+    the verdict to R8); one that enters only as a length / shape / element is undecided.
     A compute-once accessor of any class of the package (`m(self, key, compute)`: whatever its control flow, every value
     it returns is `compute()` or the entry of one attribute S under `key`, and what it stores in S goes under `key`) is
     judged at each call site `obj.m('k', lambda: E)`: the answer is the one this call would compute when S is the
@@ -1237,6 +1243,14 @@ def _memo_blocks(ctx, rule, fi, fl):
     return bool(fl.memo_open)
 
 
+def _kept_wrong(m, fi):
+    """R8 establishes that `fi` goes on with a value an earlier call left on the object under a key that does not cover it"""
+    state = _runtime_state(fi.cls, list(m.classes.values()))
+    params = [p_ for p_ in fi.params if p_ not in ('self', 'cls')]
+    return any(refreshed_verdict(fi.node, val, key, params)[0] == 'bad'
+               for _st, _a, val, key, _rd in refreshed_answers(fi.node, state, params))
+
+
 def rule_thrust(ctx):
     prog = ctx.prog
     m = prog.module(MODEL)
@@ -1244,6 +1258,8 @@ def rule_thrust(ctx):
     fl = Flow(prog, ct, methods=True, keep=manual_methods())
     R = fl.ret
     if not fl.straight or fl.returns != 1 or R is None:
+        if _kept_wrong(m, ct):
+            return             # the thrust is put together from what an earlier call left on the object: R8 states it
         ctx.undecided('C19-R2', ct, 'thrust', 'calculate_thrust is not a straight-line function with one return (guard clauses aside)')
     if _memo_blocks(ctx, 'C19-R2', ct, fl):
         return
@@ -1998,6 +2014,145 @@ def _runtime_state(k, classes):
     return out
 
 
+_CONTENT_CALLS = {'asarray', 'array', 'ascontiguousarray', 'asanyarray', 'tuple', 'float', 'tobytes', 'tolist', 'bytes', 'hash', 'ravel',
+                  'flatten', 'copy', 'item', 'frozenset'}
+
+
+def _param_deps(fn, e, params, seen=None):
+    """parameters of `fn` the value of `e` can depend on: read in it, or in what a local read in it is bound to anywhere in the
+    function (every binding of the local counts)"""
+    from ..astutil import local_defs
+    seen = set() if seen is None else seen
+    out = set()
+    for x in ast.walk(e):
+        if not (isinstance(x, ast.Name) and isinstance(x.ctx, ast.Load)):
+            continue
+        if x.id in params:
+            out.add(x.id)
+        elif x.id not in seen:
+            seen.add(x.id)
+            for st in local_defs(fn, x.id):
+                v = getattr(st, 'value', None)
+                if isinstance(st, (ast.For, ast.AsyncFor)):
+                    v = st.iter
+                if v is not None:
+                    out |= _param_deps(fn, v, params, seen)
+                else:
+                    for y in ast.walk(st):
+                        if isinstance(y, ast.Name) and y.id in params:
+                            out.add(y.id)
+    return out
+
+
+def _key_content(fn, key, params):
+    """(by content, otherwise): parameters the key determines by content - the parameter itself, or through array / tuple / bytes
+    conversions of all of it - and parameters that enter it some other way (a length, a shape, an element, an identity)"""
+    from ..astutil import local_defs
+    whole, partial = set(), set()
+
+    def visit(e, depth=0):
+        if isinstance(e, ast.Name):
+            if e.id in params:
+                whole.add(e.id)
+            elif depth < 6:
+                v = single_def_value(fn, e.id)
+                if v is not None:
+                    visit(v, depth + 1)
+                else:
+                    for st in local_defs(fn, e.id):
+                        partial.update(_param_deps(fn, st, params))
+            return
+        if isinstance(e, (ast.Tuple, ast.List)):
+            for x in e.elts:
+                visit(x, depth)
+            return
+        if isinstance(e, ast.Starred):
+            return visit(e.value, depth)
+        if isinstance(e, ast.Call) and not e.keywords:
+            nm = e.func.attr if isinstance(e.func, ast.Attribute) else (e.func.id if isinstance(e.func, ast.Name) else None)
+            if nm in _CONTENT_CALLS:
+                if isinstance(e.func, ast.Attribute) and not e.args:
+                    return visit(e.func.value, depth)        # x.tobytes()
+                if len(e.args) == 1 and (isinstance(e.func, ast.Name) or norm(e.func.value) in ('np', 'numpy')):
+                    return visit(e.args[0], depth)           # np.asarray(x), tuple(x)
+        if isinstance(e, ast.Constant):
+            return
+        partial.update(_param_deps(fn, e, params))
+    visit(key)
+    return whole, partial - whole
+
+
+def refreshed_answers(fn, state, params):
+    """[(store stmt, attribute, value stored, key expr, read)] - `self.a = V` (a written at run time) under a test that says a key
+    differs from what an earlier call left on the object (`key != self.k`, `not key == self.k`, `key not in self.k`, alone or as
+    one alternative of an `or`), in a function that also reads `self.a`: when the key is the same, the function goes on with the
+    V of the earlier call"""
+    out = []
+    for st in walk_no_nested(fn):
+        if not (isinstance(st, ast.Assign) and len(st.targets) == 1):
+            continue
+        t = st.targets[0]
+        if not (isinstance(t, ast.Attribute) and isinstance(t.value, ast.Name) and t.value.id == 'self' and t.attr in state):
+            continue
+        deps = _param_deps(fn, st.value, params)
+        if not deps:
+            continue
+        key = kattr = None
+        for test, pol, _o in guards_of(st):
+            if isinstance(test, ast.UnaryOp) and isinstance(test.op, ast.Not):
+                test, pol = test.operand, not pol
+            alts = test.values if (isinstance(test, ast.BoolOp) and isinstance(test.op, ast.Or) and pol) else [test]
+            for alt in alts:
+                for c, p_ in conjuncts_(alt, pol):
+                    if not (isinstance(c, ast.Compare) and len(c.ops) == 1):
+                        continue
+                    op, l, rr = c.ops[0], c.left, c.comparators[0]
+                    if (isinstance(op, ast.NotEq) and p_) or (isinstance(op, ast.Eq) and not p_):
+                        if _state_attr(fn, rr, state) and not _state_attr(fn, l, state):
+                            key, kattr = l, _state_attr(fn, rr, state)
+                        elif _state_attr(fn, l, state) and not _state_attr(fn, rr, state):
+                            key, kattr = rr, _state_attr(fn, l, state)
+                    elif (isinstance(op, ast.NotIn) and p_) or (isinstance(op, ast.In) and not p_):
+                        if _state_attr(fn, rr, state):
+                            key, kattr = l, _state_attr(fn, rr, state)
+        if key is None:
+            continue
+        if isinstance(key, ast.Constant) or (kattr == t.attr and not any(isinstance(x, ast.Compare) for x in ast.walk(key))
+                                             and not _param_deps(fn, key, params)):
+            continue               # `self.a` tested against a constant: not a key of the arguments (lazy construction)
+        reads = [x for x in walk_no_nested(fn) if isinstance(x, ast.Attribute) and isinstance(x.ctx, ast.Load) and x.attr == t.attr
+                 and isinstance(x.value, ast.Name) and x.value.id == 'self' and not any(x is y for y in ast.walk(key))]
+        if t.attr == kattr or not reads:
+            continue
+        out.append((st, t.attr, st.value, key, reads[0]))
+    return out
+
+
+def conjuncts_(e, pol):
+    from ..astutil import conjuncts
+    return conjuncts(e, pol)
+
+
+def refreshed_verdict(fn, value, key, params):
+    """('ok' | 'bad' | 'undecided', why) for a value kept on the object and recomputed only when `key` changes"""
+    kexpr, _ = _follow(fn, key)
+    ids = [c for c in ast.walk(kexpr) if isinstance(c, ast.Call) and isinstance(c.func, ast.Name) and c.func.id == 'id'
+           and c.args and any(isinstance(x, ast.Name) and x.id in params for x in ast.walk(c.args[0]))]
+    if ids:
+        return 'bad', (f'the value of the earlier call is used when `{norm(ids[0])}` is the same *object identity* as last time: arrays '
+                       'updated in place, or a new array at a recycled address, get the answer of the earlier contents')
+    deps = _param_deps(fn, value, params)
+    whole, partial = _key_content(fn, key, params)
+    missing = sorted(deps - whole - partial)
+    if missing:
+        return 'bad', (f'what is kept is computed from {", ".join(sorted(deps))}, and the key `{norm(kexpr)[:70]}` says nothing about '
+                       f'`{missing[0]}`: a later call with another `{missing[0]}` and the same key goes on with the earlier value')
+    vague = sorted(deps & partial)
+    if vague:
+        return 'undecided', f'`{vague[0]}` enters the key `{norm(kexpr)[:70]}` in a form that is not evidently its whole content'
+    return 'ok', 'every parameter the kept value is computed from enters the key by content'
+
+
 def _key_verdict(fn, key, params):
     """(ok, why) for a stored answer handed out under `key`"""
     from .memo import key_covers_inputs
@@ -2046,6 +2201,14 @@ def rule_state(ctx):
                    why if ok else f'{why}: the method answers for the state of an earlier call, not the one passed in '
                    '(thrust limits and fuel flow of another altitude / speed / temperature enter the mass integration)',
                    line=r.lineno)
+        for st, attr, val, key, rd in refreshed_answers(fi.node, state, params):
+            v, why = refreshed_verdict(fi.node, val, key, params)
+            if v == 'undecided':
+                ctx.undecided('C19-R8', fi, f'self.{attr}', f'`self.{attr}` is recomputed only when a key changes, and {why}')
+            ctx.ob('C19-R8', fi, f'`self.{attr}` kept between calls, recomputed when {norm(_follow(fi.node, key)[0])[:60]} changes', v == 'ok',
+                   why if v == 'ok' else f'{why}: the method goes on with the state of an earlier call, not the one passed in '
+                   '(thrust limits and fuel flow of another altitude / speed / temperature enter the mass integration)',
+                   line=st.lineno)
     # answers kept on another object (a flight-state record with a compute-once accessor): each call site
     shared_seen = set()
     judged = set()
